@@ -145,12 +145,27 @@ def apply(src, m):
 
 
 def sh(cmd, cwd=None, env=None, timeout=1800):
+    """run a shell command in its own process group; on time-out the whole group is killed (a hung test run must not
+    outlive the probe)"""
+    import signal
+    p = subprocess.Popen(cmd, shell=True, cwd=cwd, env=env, stdout=subprocess.PIPE, stderr=subprocess.PIPE, text=True,
+                         start_new_session=True)
     try:
-        return subprocess.run(cmd, shell=True, cwd=cwd, env=env, capture_output=True, text=True, timeout=timeout)
+        out, err = p.communicate(timeout=timeout)
     except subprocess.TimeoutExpired:
+        try:
+            os.killpg(p.pid, signal.SIGKILL)
+        except ProcessLookupError:
+            pass
+        p.communicate()
+
         class R:
             returncode, stdout, stderr = 124, "", "timeout"
         return R()
+
+    class R2:
+        returncode, stdout, stderr = p.returncode, out, err
+    return R2()
 
 
 def worker_dirs(out, k):
@@ -175,7 +190,7 @@ def run_mutant(args, out, k, idx, rel, src, m, props):
         return {"id": idx, "file": rel, "what": m["what"], "span": m["span"], "status": "syntax"}
     open(target, "w").write(new)
     env = dict(os.environ, PYTHONPATH=os.path.join(rp, "src"))
-    t = sh("/venv/bin/python -m pytest -q -x -p no:cacheprovider --timeout=300 2>&1 | tail -1", cwd=rp, env=env, timeout=900)
+    t = sh("/venv/bin/python -m pytest -q -x -p no:cacheprovider --timeout=40 2>&1 | tail -1", cwd=rp, env=env, timeout=240)
     rec = {"id": idx, "file": rel, "what": m["what"], "span": m["span"], "line": src.split("\n")[m["span"][0] - 1].strip()[:120],
            "new": m["text"][:80]}
     if "passed" not in t.stdout or "failed" in t.stdout or "error" in t.stdout:
